@@ -466,6 +466,11 @@ func (t *fnTrans) vc(o *Obligation, weakIx bool) string {
 		ax := "(assert (forall ((sa (Array Int Int)) (so Int) (sn Int) (si Int)) (! (=> (and (<= 0 si) (< si sn)) (= (str_at (str_of_bytes sa so sn) si) (select sa (ix so si)))) :pattern ((str_at (str_of_bytes sa so sn) si)))))\n"
 		text = strings.Replace(text, "(check-sat)", ax+"(check-sat)", 1)
 	}
+	if strings.Contains(text, "(bytes_of_str ") && strings.Contains(text, "(str_at ") {
+		// []byte(s): the slice has the bytes of the string (position by position)
+		ax := "(assert (forall ((sb Str) (si Int)) (! (=> (and (<= 0 si) (< si (strlen sb))) (= (select (bytes_of_str sb) si) (str_at sb si))) :pattern ((select (bytes_of_str sb) si)))))\n"
+		text = strings.Replace(text, "(check-sat)", ax+"(check-sat)", 1)
+	}
 	if strings.Count(text, "(fieldaddr ") >= 2 {
 		// the address of a field determines the object and the field (two field addresses are equal only if both agree)
 		ax := "(declare-fun fieldaddr_id (Int) Int)\n(declare-fun fieldaddr_obj (Int) Int)\n" +
